@@ -747,3 +747,123 @@ calc!(calc_qe_int, 5, Dom::I8);
 calc!(calc_qq_int, 6, Dom::I8);
 // @h prop=C07 unwind=8 rec=4 timeout=900 mem=12 tier=thorough stubs=BigNum::mul,new->one-limb_models what=area::calc_on__![[h]!_]_with_fractions
 calc!(calc_ee_frac, 7, Dom::Frac);
+
+// ===========================================================================
+// C14 - Unicode passes through: the two I/O kernels over WHOLE UTF-8 length classes.
+// Input: a pending line of one character of the class (or end of input): the popped value is
+// its code point, NaN exactly at end of input.  Output: every non-negative value below
+// 0x120000: UTF-8 of the scalar value, or the encoding error for surrogates / >= 0x110000.
+// ===========================================================================
+// @h prop=C14 unwind=10 rec=2 cutfmt=1 uw=same_output.0:25;exit_model.0:25;exit.0:25;push.0:17;write.0:17 timeout=600 what=stdin_pop:1-byte_character(U+0000..U+007F,incl._line_break)_or_EOF->code_point_or_NaN
+step!(u_in_1, Cfg { kind: 1, h: 1, d: 3, cur: 0, line: Some(1), classes: [1, 1, 1, 1], depth: [0, 0, 0, 0, 0, 0], ..CFG0 });
+// @h prop=C14 unwind=10 rec=2 cutfmt=1 uw=same_output.0:25;exit_model.0:25;exit.0:25;push.0:17;write.0:17 timeout=600 what=stdin_pop:2-byte_character(U+0080..U+07FF)_or_EOF
+step!(u_in_2, Cfg { kind: 1, h: 1, d: 3, cur: 0, line: Some(1), classes: [2, 1, 1, 1], depth: [0, 0, 0, 0, 0, 0], ..CFG0 });
+// @h prop=C14 unwind=10 rec=2 cutfmt=1 uw=same_output.0:25;exit_model.0:25;exit.0:25;push.0:17;write.0:17 timeout=600 what=stdin_pop:3-byte_character(U+0800..U+FFFF_without_surrogates)_or_EOF
+step!(u_in_3, Cfg { kind: 1, h: 1, d: 3, cur: 0, line: Some(1), classes: [3, 1, 1, 1], depth: [0, 0, 0, 0, 0, 0], ..CFG0 });
+// @h prop=C14 unwind=10 rec=2 cutfmt=1 uw=same_output.0:25;exit_model.0:25;exit.0:25;push.0:17;write.0:17 timeout=600 what=stdin_pop:4-byte_character(U+10000..U+10FFFF)_or_EOF
+step!(u_in_4, Cfg { kind: 1, h: 1, d: 3, cur: 0, line: Some(1), classes: [4, 1, 1, 1], depth: [0, 0, 0, 0, 0, 0], ..CFG0 });
+// @h prop=C14 unwind=10 rec=2 cutfmt=1 uw=same_output.0:25;exit_model.0:25;exit.0:25;push.0:17;write.0:17 timeout=900 what=stdin_pop:line_of_3_characters(2-,4-,1-byte):first_popped,others_buffered_in_order
+step!(u_in_241, Cfg { kind: 1, h: 1, d: 3, cur: 0, line: Some(3), classes: [2, 4, 1, 1], depth: [0, 0, 0, 0, 0, 0], ..CFG0 });
+// @h prop=C14 unwind=10 rec=2 cutfmt=num uw=same_output.0:25;exit_model.0:25;exit.0:25;push.0:17;write.0:17 timeout=900 what=stdout_push:every_value_0..0x120000->UTF-8_of_the_scalar_value_or_encoding_error
+step!(u_out, Cfg { kind: 1, h: 1, d: 1, dom: Dom::Scalar, depth: [0, 0, 0, 1, 0, 0], ..CFG0 });
+// @h prop=C14 unwind=10 rec=2 cutfmt=num uw=same_output.0:25;exit_model.0:25;exit.0:25;push.0:17;write.0:17 timeout=900 what=stderr_push:same_on_the_error_stream
+step!(u_err, Cfg { kind: 1, h: 1, d: 2, dom: Dom::Scalar, depth: [0, 0, 0, 1, 0, 0], ..CFG0 });
+// @h prop=C14 unwind=10 rec=2 cutfmt=num uw=same_output.0:25;exit_model.0:25;exit.0:25;push.0:17;write.0:17 timeout=900 tier=thorough kind=stretch what=one-character_copy_stdin->stdout_in_a_single_command(3-byte_class)
+step!(u_copy_3, Cfg { kind: 1, h: 1, d: 1, cur: 0, line: Some(1), classes: [3, 1, 1, 1], depth: [0, 0, 0, 0, 0, 0], ..CFG0 });
+// @h prop=C14 unwind=10 rec=2 cutfmt=1 uw=same_output.0:25;exit_model.0:25;exit.0:25;push.0:17;write.0:17 timeout=600 kind=twin
+#[cfg_attr(kani, kani::proof)]
+#[cfg_attr(kani, kani::stub(Num::add, m_num_add))]
+#[cfg_attr(kani, kani::stub(Num::mul, m_num_mul))]
+#[cfg_attr(kani, kani::stub(BigNum::mul, m_mul))]
+#[cfg_attr(kani, kani::stub(BigNum::div, m_div))]
+#[cfg_attr(kani, kani::stub(BigNum::new, m_new1))]
+#[cfg_attr(kani, kani::stub(std::process::exit, exit_model))]
+#[cfg_attr(kani, kani::stub(std::fmt::format, fmt_model))]
+pub fn twin_unicode() {
+    let c = Cfg { kind: 1, h: 1, d: 3, cur: 0, line: Some(1), classes: [3, 1, 1, 1], depth: [0, 0, 0, 0, 0, 0], ..CFG0 };
+    step_check(&c);
+    assert!(false);
+}
+
+// ===========================================================================
+// C12 (library level) - execute(): "append one command, run until control passes the newest
+// command" is what the interactive interpreter does per entered command.  One appended command
+// from the symbolic pre-state equals one step of the definition at the new location, and the
+// command log grows by exactly that command.
+// ===========================================================================
+pub(crate) fn exec_check(c: &Cfg) {
+    let cc = Cfg { loc: NCODE, ..*c };
+    let Pre { mut s, mut l, code, mut rd } = mk_pre(&cc);
+    let cmd = std::mem::replace(&mut l.code[NCODE], OptCode::new(0, 1, 1, 1, Area::Nil));
+    // labels of the pre-state may only point at or beyond the new command (a backward jump would
+    // re-run earlier commands: covered by the step harnesses, unbounded here)
+    let mut k = 0;
+    while k < NPTS {
+        if k < s.npts {
+            assume(s.pts[k].1 >= NCODE);
+        }
+        k += 1;
+    }
+    if let Some(x) = s.latest {
+        assume(x >= NCODE);
+    }
+    let want = spec_step(&mut s, &code, NCODE);
+    set_expect(want, &s);
+    let mut out = CapW::new(false);
+    let mut err = CapW::new(true);
+    let got = execute(&mut rd, &mut out, &mut err, l, &cmd);
+    match got {
+        Ok(post) => {
+            assert!(matches!(want, End::Next(_)), "returned although the definition exits or fails here");
+            assert!(post.ncode == NCODE + 1, "command log did not grow by exactly one command");
+            assert!(same_state(&post, &s), "state after the entered command differs from the definition");
+            assert!(same_output(&out, &s.out, s.olen) && same_output(&err, &s.err, s.elen), "output of the entered command differs");
+            std::mem::forget(post);
+        }
+        Err(e) => {
+            assert!(want == End::EncodingError);
+            std::mem::forget(e);
+        }
+    }
+    vcover!();
+    std::mem::forget((rd, out, err, cmd));
+}
+macro_rules! xstep {
+    ($name:ident, $cfg:expr) => {
+        #[cfg_attr(kani, kani::proof)]
+        #[cfg_attr(kani, kani::stub(Num::add, m_num_add))]
+        #[cfg_attr(kani, kani::stub(Num::mul, m_num_mul))]
+        #[cfg_attr(kani, kani::stub(BigNum::mul, m_mul))]
+        #[cfg_attr(kani, kani::stub(BigNum::div, m_div))]
+        #[cfg_attr(kani, kani::stub(BigNum::new, m_new1))]
+        #[cfg_attr(kani, kani::stub(BigNum::to_string_base, m_to_string_digit))]
+        #[cfg_attr(kani, kani::stub(std::process::exit, exit_model))]
+        #[cfg_attr(kani, kani::stub(std::fmt::format, fmt_model))]
+        pub fn $name() {
+            let c: Cfg = $cfg;
+            exec_check(&c);
+        }
+    };
+}
+// @h prop=C12 unwind=10 rec=2 cutfmt=1 uw=execute.0:2;same_output.0:25;exit_model.0:25;exit.0:25;push.0:17;write.0:17 timeout=600 what=execute():entered_형_command
+xstep!(x_push, Cfg { kind: 0, h: 2, d: 3, depth: [0, 0, 0, 1, 0, 0], ..CFG0 });
+// @h prop=C12 unwind=10 rec=2 cutfmt=1 uw=execute.0:2;same_output.0:25;exit_model.0:25;exit.0:25;push.0:17;write.0:17 timeout=600 tier=thorough kind=stretch what=execute():entered_항_with_a_heart:label_registered_at_the_new_position
+xstep!(x_add_heart, Cfg { kind: 1, h: 2, d: 4, area: 1, npts: 0, depth: [0, 0, 0, 2, 0, 0], ..CFG0 });
+// @h prop=C12 unwind=10 rec=2 cutfmt=1 uw=execute.0:2;same_output.0:25;exit_model.0:25;exit.0:25;push.0:17;write.0:17 timeout=600 tier=thorough kind=stretch what=execute():entered_흑_with_white_heart_and_no_jump_source
+xstep!(x_dup_white, Cfg { kind: 5, h: 1, d: 4, area: 2, latest: false, depth: [0, 0, 0, 1, 0, 0], ..CFG0 });
+// @h prop=C12 unwind=10 rec=2 cutfmt=1 uw=execute.0:2;same_output.0:25;exit_model.0:25;exit.0:25;push.0:17;write.0:17 timeout=600 what=execute():entered_command_that_exits_through_stack_1
+xstep!(x_exit, Cfg { kind: 1, h: 1, d: 3, cur: 1, depth: [0, 0, 0, 1, 0, 0], ..CFG0 });
+// @h prop=C12 unwind=10 rec=2 cutfmt=1 uw=execute.0:2;same_output.0:25;exit_model.0:25;exit.0:25;push.0:17;write.0:17 timeout=600 kind=twin
+#[cfg_attr(kani, kani::proof)]
+#[cfg_attr(kani, kani::stub(Num::add, m_num_add))]
+#[cfg_attr(kani, kani::stub(Num::mul, m_num_mul))]
+#[cfg_attr(kani, kani::stub(BigNum::mul, m_mul))]
+#[cfg_attr(kani, kani::stub(BigNum::div, m_div))]
+#[cfg_attr(kani, kani::stub(BigNum::new, m_new1))]
+#[cfg_attr(kani, kani::stub(std::process::exit, exit_model))]
+#[cfg_attr(kani, kani::stub(std::fmt::format, fmt_model))]
+pub fn twin_exec() {
+    let c = Cfg { kind: 0, h: 2, d: 3, depth: [0, 0, 0, 1, 0, 0], ..CFG0 };
+    exec_check(&c);
+    assert!(false);
+}
